@@ -5,8 +5,10 @@ known_findings.jsonl, confirm each witness with the crate's own decoder, and pri
 import sys, json, re, subprocess, os
 ROOT = os.path.dirname(os.path.dirname(os.path.abspath(__file__)))
 prof = "dev"
-got = open(os.path.join(ROOT, "work/C10_c10_%s.got" % prof)).read().split("\n")
-req = open(os.path.join(ROOT, "work/C10_c10_%s.req" % prof)).read().split("\n")
+# optional: --dir <directory holding C10_c10_dev.got/.req> (e.g. copied from a thorough background run)
+src = sys.argv[sys.argv.index("--dir") + 1] if "--dir" in sys.argv else os.path.join(ROOT, "work")
+got = open(os.path.join(src, "C10_c10_%s.got" % prof)).read().split("\n")
+req = open(os.path.join(src, "C10_c10_%s.req" % prof)).read().split("\n")
 known = [json.loads(l) for l in open(os.path.join(ROOT, "known_findings.jsonl")) if l.strip()]
 known = [k for k in known if k["property"] == "C10" and k["kind"] == "known"]
 def listed(q, g):
@@ -22,6 +24,8 @@ for g, q in zip(got, req):
         continue
     parts = q.split()
     modes, mask, inp = parts[2], parts[3], parts[7]
+    if any(e["match"]["line_regex"].startswith("enc o %s %s " % (modes, mask)) and e["match"]["line_regex"].endswith(" - %s " % inp) for e in new):
+        continue
     wit = g.split("witness:")[1]
     r = subprocess.run([os.path.join(ROOT, "harness/target/debug/dmh"), "ddata", wit], capture_output=True, text=True).stdout.strip()
     ok = (r == "ok:" + inp)
